@@ -329,6 +329,9 @@ func runC15(w *World, r *Report) {
 	// a value that a branch of the function found to be nil is not dereferenced on a path from that branch
 	nilCheckedThenUsed(w, r, "nil-checked-then-used", fns)
 
+	// the zero value of an absent map entry is not used as if the entry were there
+	absentEntryNotUsed(w, r, "absent-entry-is-not-used", fns)
+
 	// an entry is never assigned in a map that can be nil (a write to a nil map panics; a read does not)
 	r.rule("map-write-needs-allocated-map", "every map assignment in the wire-facing packages writes to a map that is allocated on every path to it — followed through φ, local variables and the results of repo helpers (a helper that allocates its result lazily returns nil when nothing was added)", 3)
 	nMU := 0
@@ -512,6 +515,48 @@ func runC15(w *World, r *Report) {
 		}
 		r.Extra["functions_reachable_from_handlers"] = len(reach)
 		r.check(bad == "" && len(reach) > len(handlerFns), "no-fatal-on-request-paths", "handlers", "-", fmt.Sprintf("no fatal exit among the %d functions a request can reach", len(reach)), bad)
+	}
+
+	// the truncation is started by the weight a received vertex claims; on a ledger that is shallower than the
+	// checkpoint depth the depth walk hands back the zero hash, which is no vertex: the walk from it fails and
+	// the truncate loop reports that with Fatal
+	r.rule("depth-walk-outcome-is-tested", "wherever the truncation takes the hash from the depth collector (getHash), the outcome of the depth walk — that hash, a field of the collector, or the answer of another of its methods — reaches the condition of a branch whose two sides differ in what they do: a walk that ended before the depth was reached (the weight that starts a truncation is only what the sealer of a received vertex claimed) is told from one that found the checkpoint vertex", 1)
+	if top := w.Func("accountant", "AccountingBook", "truncate"); top != nil {
+		for _, d := range deepCalls(top, byName(nDepthGetter), deepDepth) {
+			cv, isVal := d.c.(ssa.Value)
+			if !isVal {
+				continue
+			}
+			fn := d.c.Parent()
+			srcs := []ssa.Value{cv}
+			_, args := callArgs(d.c)
+			if len(args) > 0 {
+				if al, ok := baseOf(args[0]).(*ssa.Alloc); ok && al.Referrers() != nil {
+					for _, ref := range *al.Referrers() {
+						switch x := ref.(type) {
+						case *ssa.FieldAddr:
+							for _, lr := range *x.Referrers() {
+								if ld, ok := lr.(*ssa.UnOp); ok && ld.Op == token.MUL {
+									srcs = append(srcs, ld)
+								}
+							}
+						case *ssa.Call:
+							if x != cv && x.Call.StaticCallee() != nil && isRepoFunc(x.Call.StaticCallee()) && len(x.Call.Args) > 0 && x.Call.Args[0] == ssa.Value(al) {
+								srcs = append(srcs, x)
+							}
+						}
+					}
+				}
+			}
+			tested := false
+			for _, sv := range srcs {
+				if at := flowsToBranch(w, sv, 3, map[ssa.Value]bool{}); at != nil && branchChangesEffects(at) {
+					tested = true
+				}
+			}
+			r.check(tested, "depth-walk-outcome-is-tested", shortFn(fn), lineOf(w, d.c), "the outcome of the depth walk decides a branch before the hash is used",
+				"the hash of the depth collector is used as the checkpoint vertex without any test that the walk reached the depth: on a ledger shallower than the checkpoint depth (any admitted vertex may claim a weight above the truncate mark) it is the zero hash, the walk from it fails with an unknown id and the truncate loop ends the process with Fatal")
+		}
 	}
 
 	// shared tables are only touched under their lock (an unsynchronised map access aborts the process)
@@ -785,4 +830,84 @@ func repoImplementations(w *World, it types.Type, m *types.Func) []*ssa.Function
 		}
 	}
 	return out
+}
+
+// absentEntryNotUsed: a map lookup of a key that is not there yields the zero value — for an entry that is (or holds) a
+// pointer or an interface that is nil. Using it (calling a method on it, dereferencing it, keeping it for a later call)
+// needs the lookup to have found the key, or the value to have been tested.
+func absentEntryNotUsed(w *World, r *Report, rule string, fns []*ssa.Function) {
+	r.rule(rule, "in the wire-facing packages a pointer or interface obtained from a map lookup (the entry itself, or such a field of a struct entry) is used — invoked, dereferenced, stored, appended, passed on — only behind the found-edge of the comma-ok form or behind a test of that value against nil: the key of a lookup on a request path is whatever the peer wrote", 0)
+	n, nBad := 0, 0
+	for _, fn := range fns {
+		instrsOf(fn, func(in ssa.Instruction) {
+			lk, ok := in.(*ssa.Lookup)
+			if !ok {
+				return
+			}
+			mt, isMap := lk.X.Type().Underlying().(*types.Map)
+			if !isMap {
+				return
+			}
+			var entry ssa.Value = lk
+			var guards []Edge
+			if lk.CommaOk {
+				entry = nil
+				for _, ref := range *lk.Referrers() {
+					if ex, isEx := ref.(*ssa.Extract); isEx {
+						if ex.Index == 0 {
+							entry = ex
+						} else {
+							guards = append(guards, trueEdges(fn, ex)...)
+						}
+					}
+				}
+				if entry == nil {
+					return
+				}
+			}
+			isRef := func(t types.Type) bool {
+				switch t.Underlying().(type) {
+				case *types.Pointer, *types.Interface:
+					return true
+				}
+				return false
+			}
+			var cands []ssa.Value
+			if isRef(mt.Elem()) {
+				cands = append(cands, entry)
+			} else if _, isStruct := mt.Elem().Underlying().(*types.Struct); isStruct && entry.Referrers() != nil {
+				for _, ref := range *entry.Referrers() {
+					if f, isF := ref.(*ssa.Field); isF && isRef(f.Type()) {
+						cands = append(cands, f)
+					}
+				}
+			}
+			for _, v := range cands {
+				n++
+				g := append(append([]Edge{}, guards...), edgesWhere(fn, func(f fact) bool { return f.kind == fNotNil && sameVal(f.x, v) })...)
+				for _, ref := range *v.Referrers() {
+					switch x := ref.(type) {
+					case *ssa.DebugRef:
+						continue
+					case *ssa.BinOp:
+						if x.Op == token.EQL || x.Op == token.NEQ {
+							continue
+						}
+					case *ssa.Field, *ssa.Extract:
+						continue
+					}
+					if behind(ref, g) {
+						continue
+					}
+					nBad++
+					r.bad(rule, shortFn(fn)+"/"+pathOf(lk.X)+"[…]", lineOf(w, ref), "an entry that may be absent is not used as if it were there",
+						fmt.Sprintf("%s, taken from the lookup %s[%s] at %s, is used at %s although nothing on the way established that the key was found or the value is not nil: for an absent key it is nil, and calling through it panics", pathOf(v), pathOf(lk.X), pathOf(lk.Index), lineOf(w, lk), lineOf(w, ref)))
+					break
+				}
+			}
+		})
+	}
+	if nBad == 0 {
+		r.ok(rule, "all", "-", fmt.Sprintf("%d pointer/interface values taken from map lookups examined, each used only where it is known to be present", n))
+	}
 }
